@@ -456,8 +456,19 @@ def miri_run(shape, seeds, tier_budget):
     return ok, fails
 
 
+def clean_replays(prop):
+    """Replay files of earlier runs of this check are stale once it runs again."""
+    import glob
+    for f in glob.glob(os.path.join(REPLAYS, f"{prop}-*")):
+        try:
+            os.remove(f)
+        except OSError:
+            pass
+
+
 def check_c18(tier, seed):
     t0 = time.time()
+    clean_replays("C18")
     plan = C18_PLAN[tier]
     salt = {"quick": 1, "thorough": 2}[tier]
     b = build_cooksim()
@@ -664,6 +675,7 @@ C11_PLAN = {
 
 def check_c11(tier, seed):
     t0 = time.time()
+    clean_replays("C11")
     plan = C11_PLAN[tier]
     salt = {"quick": 11, "thorough": 12}[tier]
     b = build_cooksim()
